@@ -37,6 +37,7 @@ type Obligation struct {
 	FirstTry string // solver output of the first attempt when the obligation was retried
 	RetSite  int    // cover:return: ordinal of the return statement (source order)
 	IsCover  bool   // cover query: expected sat
+	Wide     bool   // selected by the wide mode (tagged for another property of the same function)
 }
 
 // funcRun is the per-function context of a verification run.
